@@ -43,6 +43,7 @@ class Life:
         self.handles: dict = {}
         self.held: dict = {}
         self.codegens: dict = {}
+        self._opt_objects: dict = {}
         self.nfile = 0
 
         import gotranx  # noqa: F401  (the system under test, from /repo's working tree)
@@ -102,14 +103,21 @@ class Life:
         return kw
 
     def _stiff(self, ode, picks):
-        names = sorted(s.name for s in ode.states)
-        out = []
-        for k in picks or []:
-            if k == -1:
-                out.append("not_a_state_zz")
-            elif names:
-                out.append(names[k % len(names)])
-        return out
+        """The stiff-state list for these picks.  The SAME list object is handed out for
+        the same (model object, picks) every time - like a caller who keeps one options
+        dict and passes it to several generations - so that a callee which mutates its
+        arguments shows up as a dependence on previous calls."""
+        ck = (id(ode), tuple(picks or []))
+        if ck not in self._opt_objects:
+            names = sorted(s.name for s in ode.states)
+            out = []
+            for k in picks or []:
+                if k == -1:
+                    out.append("not_a_state_zz")
+                elif names:
+                    out.append(names[k % len(names)])
+            self._opt_objects[ck] = (ode, out)  # keep `ode` alive so id() stays unique
+        return self._opt_objects[ck][1]
 
     # ---------------------------------------------------------------------- ops
     def op_LOAD(self, op, ev):
@@ -186,16 +194,23 @@ class Life:
         from gotranx.codegen import PythonFormat, CFormat
         from gotranx.codegen.base import Shape
 
-        schemes = [Scheme[s] for s in o.get("schemes", [])] or None
+        sk = (id(ode), "schemes", tuple(o.get("schemes", [])))
+        if sk not in self._opt_objects:
+            self._opt_objects[sk] = (ode, [Scheme[s] for s in o.get("schemes", [])] or None)
+        schemes = self._opt_objects[sk][1]
         stiff = self._stiff(ode, o.get("stiff"))
         missing = None
         if o.get("missing"):
-            pool = sorted([s.name for s in ode.states] + [a.name for a in ode.intermediates])
-            missing = {}
-            for j, k in enumerate(o["missing"]):
-                nm = pool[k % len(pool)]
-                if nm not in missing:
-                    missing[nm] = len(missing)
+            mk = (id(ode), "missing", tuple(o["missing"]))
+            if mk not in self._opt_objects:
+                pool = sorted([s.name for s in ode.states] + [a.name for a in ode.intermediates])
+                mv = {}
+                for j, k in enumerate(o["missing"]):
+                    nm = pool[k % len(pool)]
+                    if nm not in mv:
+                        mv[nm] = len(mv)
+                self._opt_objects[mk] = (ode, mv)
+            missing = self._opt_objects[mk][1]
         ev["key"] = "GEN|%s|%s" % (hd["mkey"], obs.canon(o))
         ev["judged"] = hd["judged"]
         backend = o.get("backend", "numpy")
